@@ -198,6 +198,15 @@ def absval(a):
         return Q(abs(a.re))
     if a.is_real:
         sn = a._signed_num()
+        if CTX.facts:
+            for cond, val in ((sn >= 0, a), (sn <= 0, -a)):
+                so = z3.Solver()
+                so.set('timeout', 3000)
+                so.add(CTX.facts)
+                so.add(CTX.den_conds())
+                so.add(z3.Not(cond))
+                if so.check() == z3.unsat:
+                    return val
         return ite(B(sn >= 0), a, -a)
     return sqrt(a.abs2())
 
